@@ -54,6 +54,20 @@ def gen_cases(rng, tier):
     model = spec.gen_pair_model(rng, groute, target=rng.choice(["DL_POLY", "DLPOLY"]), nr_choices=[nr], maxlabel=8,
                                 depth=1 if reject else 2, rmax_scale=lambda n: n / max(1.0, n - 4.0))
     cases.append({"route": route, "model": model, "style": rng.randrange(1 << 30), "reject": reject})
+  # potentials whose energy is exactly 0 at a grid point where the slope is not (roots on the grid):
+  # a writer that treats "energy == 0" as "switched off" would print a zero force there
+  for i in range(6 if tier == "quick" else 60):
+    nr = rng.choice([8, 12, 24, 44])
+    cutoff = (nr - 4) * rng.choice([0.25, 0.125, 0.5])
+    delpot = cutoff / (nr - 4)
+    k = rng.randint(2, nr - 2)
+    c = rng.choice([2.0, 4.0, 0.5, -8.0])
+    node = {"k": "form", "name": "polynomial", "p": [-c * k * delpot, c]}
+    if i % 2:
+      node = {"k": "sum", "a": [node, {"k": "form", "name": "zero", "p": []}]}
+    route = ["api_class", "api_legacy", "potable", "cli"][i % 4]
+    model = {"type": "pair", "target": "DL_POLY", "tab": {"nr": nr, "cutoff": cutoff}, "forms": [], "tables": [], "pair": [["Ar", "Ar", node]]}
+    cases.append({"route": route, "model": model, "style": rng.randrange(1 << 30), "reject": False, "root_on_grid": k})
   return cases
 
 
@@ -119,6 +133,9 @@ def run_case(case, ctx):
       ctx.cls("kind:" + k)
   delpot = oracle.grid(cutoff, nr - 4)
   rows = oracle.sample_rows(nr, rng, 24)
+  if case.get("root_on_grid"):
+    rows = sorted(set(rows + [case["root_on_grid"] - 1]))
+    ctx.cls("root_on_grid")
   try:
     for o in refs:
       for i in rows:
